@@ -61,8 +61,8 @@ def _axis(rng):
   return a
 
 
-def _geom(rng, kind=None):
-  kind = kind or ('sphere', 'capsule', 'box')[int(rng.integers(0, 3))]
+def _geom(rng, kind=None, box=True):
+  kind = kind or (('sphere', 'capsule', 'box') if box else ('sphere', 'capsule'))[int(rng.integers(0, 3 if box else 2))]
   g = dict(type=kind, attrs={})
   if kind == 'sphere':
     g['size'] = [round(float(rng.uniform(0.05, 0.2)), 2)]
@@ -92,6 +92,9 @@ def gen_doc(rng, want=()):
   element (actuators, a free root, a multi-joint body, a cylinder, >= 2 geoms)."""
   nb = int(rng.integers(1, 7))
   bodies = []
+  # mjx.put_model (called by load_model) has no cylinder-box collision function: a document has
+  # boxes or cylinders, never both
+  cyl = 'cylinder' in want or rng.random() < 0.5
   for i in range(nb):
     parent = -1 if (i == 0 or rng.random() < 0.3) else int(rng.integers(0, i))
     free = parent == -1 and rng.random() < (0.8 if 'freestiff' in want else 0.45)
@@ -118,14 +121,14 @@ def gen_doc(rng, want=()):
         if rng.random() < 0.1:
           j['attrs']['ref'] = '0'                      # harmless edge: explicit zero reference
         joints.append(j)
-    geoms = [_geom(rng)]
+    geoms = [_geom(rng, box=not cyl)]
     if rng.random() < 0.4:
-      geoms.append(_geom(rng))
-    if rng.random() < (0.7 if 'cylinder' in want else 0.3):
+      geoms.append(_geom(rng, box=not cyl))
+    if cyl and rng.random() < (0.7 if 'cylinder' in want else 0.5):
       geoms.append(_geom(rng, 'cylinder'))
     b = dict(parent=parent, pos=_vec(rng, -1, 1), joints=joints, geoms=geoms, sites=1, fusechild=None)
     if rng.random() < 0.15:
-      b['fusechild'] = dict(pos=_vec(rng, -0.3, 0.3), geoms=[_geom(rng)])   # jointless: fused away
+      b['fusechild'] = dict(pos=_vec(rng, -0.3, 0.3), geoms=[_geom(rng, box=not cyl)])   # jointless: fused away
     bodies.append(b)
   world_geoms = []
   if rng.random() < 0.7 or 'solmix' in want or 'priority' in want:
@@ -323,7 +326,7 @@ def inject(doc, feature, elem, variant):
       a['kind'] = 'general'
       a['attrs'] = {'gaintype': variant}
       if variant == 'muscle':
-        a['attrs']['gainprm'] = MUSCLE_PRM
+        a['attrs'].update(gainprm=MUSCLE_PRM, lengthrange='0.5 1.5')
       if variant == 'affine':
         a['attrs']['gainprm'] = '1 0 0'
   elif feature == 'bias':
@@ -331,7 +334,7 @@ def inject(doc, feature, elem, variant):
     a['kind'] = 'general'
     a['attrs'] = {'biastype': variant}
     if variant == 'muscle':
-      a['attrs']['biasprm'] = MUSCLE_PRM
+      a['attrs'].update(biasprm=MUSCLE_PRM, lengthrange='0.5 1.5')
   elif feature == 'ref':
     i, k = elem
     bodies[i]['joints'][k]['attrs']['ref'] = variant
@@ -405,10 +408,16 @@ def kind_of(e):
   return 'OTHER'
 
 
-def run_real(xml, with_structure=True):
-  """outcome of the real code on one document"""
+def run_real(xml, with_structure=True, execute=False):
+  """outcome of the real code on one document.
+
+  `init` is a python function whose only raising statements run at python level
+  (`validate_model`, dict lookups on `link_types`), so it is observed by *tracing* the real
+  `pipeline.init` with `jax.eval_shape` (the whole body runs, no XLA compile: ~2 s per accepted
+  model instead of ~30 s eagerly); with `execute=True` it is also jitted and run on concrete
+  arrays and the result must be finite-shaped the same way."""
   B = _brax()
-  mjcf, jp, mujoco = B['mjcf'], B['jp'], B['mujoco']
+  mjcf, jp, mujoco, jax = B['mjcf'], B['jp'], B['mujoco'], B['jax']
   out = dict(stage=None, mj=None)
   try:
     fused = mjcf.fuse_bodies(xml)
@@ -423,14 +432,26 @@ def run_real(xml, with_structure=True):
     return out
   out['stage'] = 'init'
   out['init'] = {}
+  out['executed'] = False
   qd = jp.zeros(sys_.qd_size())
   for name in PIPES:
+    fn = lambda q, v, name=name: B['pipes'][name].init(sys_, q, v)
     try:
-      B['pipes'][name].init(sys_, sys_.init_q, qd)
+      jax.eval_shape(fn, sys_.init_q, qd)
       out['init'][name] = 'ok'
     except Exception as e:
       out['init'][name] = kind_of(e)
       out.setdefault('errors', {})[name] = f'{type(e).__name__}: {str(e)[:80]}'
+  if execute and all(v == 'ok' for v in out['init'].values()):
+    for name in PIPES:
+      fn = lambda q, v, name=name: B['pipes'][name].init(sys_, q, v)
+      try:
+        st = jax.jit(fn)(sys_.init_q, qd)
+        jax.block_until_ready(st.q)
+      except Exception as e:
+        out['init'][name] = kind_of(e)
+        out.setdefault('errors', {})[name] = f'executed: {type(e).__name__}: {str(e)[:80]}'
+    out['executed'] = True
   if with_structure:
     out['sys'] = sys_
   return out
@@ -597,7 +618,7 @@ def make_cases(ctx, rng):
   for f in FEATURES:
     vs = list(VARIANTS[f])
     rng.shuffle(vs)
-    for r in range(per_feature):
+    for r in range(max(per_feature, len(vs))):      # every variant of every feature at least once
       for _ in range(50):
         doc = gen_doc(rng, want=(f,))
         el = eligible(doc, f)
@@ -609,7 +630,6 @@ def make_cases(ctx, rng):
       v = vs[r % len(vs)]
       cases.append((dict(base=b, feature=f, elem=e, variant=v), render(inject(doc, f, e, v))))
       b += 1
-  # the known-delicate cylinder variant is always exercised
   return cases
 
 
@@ -701,8 +721,10 @@ def correspond(ctx):
   t0 = time.time()
   cases = make_cases(ctx, rng)
   reals, lines, idx = [], [], []
+  n_exec, max_exec = 0, ctx.budget(2, 12)
   for n, (label, xml) in enumerate(cases):
-    r = run_real(xml)
+    r = run_real(xml, execute=(label.get('feature') is None and n_exec < max_exec))
+    n_exec += bool(r.get('executed'))
     reals.append(r)
     if r['mj'] is not None:
       idx.append(n)
@@ -711,6 +733,7 @@ def correspond(ctx):
   if len(out) != len(lines):
     raise RuntimeError(f'driver returned {len(out)} lines for {len(lines)} cases')
   answers = {n: parse_answer(o) for n, o in zip(idx, out)}
+  line_of = dict(zip(idx, lines))
   disagreements, spec_failures = [], []
   hist, by_feature, branches, kinds, link_types, distinct = {}, {}, {}, {}, {}, set()
   mj_rejected = []
@@ -744,7 +767,7 @@ def correspond(ctx):
       kinds[ans['v']] = kinds.get(ans['v'], 0) + 1
       if tag == 'accepted':
         link_types[ans.get('lt', '?')] = link_types.get(ans.get('lt', '?'), 0) + 1
-      distinct.add((f, label.get('variant'), lines[idx.index(n)]))
+      distinct.add((f, label.get('variant'), line_of[n]))
     if len(samples) < 4 and (n % 7 == 0):
       samples.append(dict(label={k: str(v) for k, v in label.items()}, xml=xml[:600], outcome=tag,
                           model=None if ans is None else {k: ans[k] for k in ('v', 'br') if k in ans}))
@@ -776,7 +799,8 @@ def correspond(ctx):
                  first_failing_check={(names[int(k)] if k != '-' else 'none'): v for k, v in branches.items()},
                  accepted_link_types=dict(sorted(link_types.items(), key=lambda kv: -kv[1])[:12]),
                  rejected_by_mujoco_compiler=sorted(set(mj_rejected)), n_rejected_by_mujoco_compiler=len(mj_rejected),
-                 helper_cases=n_h, documents=len(cases), wall_correspond_s=round(time.time() - t0, 1)))
+                 helper_cases=n_h, documents=len(cases), init_executed_concretely=n_exec,
+                 init_observed_by='jax.eval_shape of the real pipeline.init (python-level raises); first accepted clean documents also jitted and run', wall_correspond_s=round(time.time() - t0, 1)))
 
 
 # ----------------------------------------------------------------------------- search / replay
